@@ -86,10 +86,11 @@ impl RealTx {
                 Signing::Shielded => Ok(*signature_hash(&self.data, &SignableInput::Shielded, parts).as_ref()),
                 Signing::Transparent { index, hash_type } => {
                     let ht = SighashType::parse(hash_type).ok_or("hash type refused")?;
-                    let sc = script(&coins[index].script);
+                    let sc = script(&coins[index].code);
+                    let spk = script(&coins[index].script);
                     let bundle = self.data.transparent_bundle().ok_or("no transparent bundle")?;
                     let value = Zatoshis::from_nonnegative_i64(coins[index].value).map_err(|e| format!("{e:?}"))?;
-                    let inp = TSignable::from_parts(bundle, ht, index, &sc, &sc, value).map_err(|e| e.to_string())?;
+                    let inp = TSignable::from_parts(bundle, ht, index, &sc, &spk, value).map_err(|e| e.to_string())?;
                     Ok(*signature_hash(&self.data, &SignableInput::Transparent(inp), parts).as_ref())
                 }
             }
